@@ -7,6 +7,7 @@
 #include "parsec/parsec_config.h"
 #include "parsec/parsec_internal.h"
 #include "parsec/scheduling.h"
+#include "parsec/mca/termdet/termdet.h"
 #include "parsec/utils/debug.h"
 
 /**
@@ -52,6 +53,8 @@ parsec_compound_taskpool_startup( parsec_context_t *context,
 
     compound->ctx = context;
     compound->super.tdm.module->taskpool_set_runtime_actions(&compound->super, compound->nb_taskpools);
+    /* Only now that the compound accounts for its taskpools can it be declared ready */
+    compound->super.tdm.module->taskpool_ready(&compound->super);
     PARSEC_DEBUG_VERBOSE(30, parsec_debug_output, "Compound taskpool %p starting with %d taskpools",
                          compound, compound->nb_taskpools);
     for( int i = 0; i < compound->nb_taskpools; i++ ) {
@@ -71,6 +74,9 @@ __parsec_compound_taskpool_destructor( parsec_compound_taskpool_t* compound )
     assert(PARSEC_TASKPOOL_TYPE_COMPOUND == compound->super.taskpool_type);
     PARSEC_DEBUG_VERBOSE(30, parsec_debug_output,
                          "Compound taskpool destructor %p", compound);
+    if( NULL != compound->super.tdm.module ) {
+        compound->super.tdm.module->unmonitor_taskpool(&compound->super);
+    }
     free(compound->taskpool_array);
     if( NULL == compound->super.taskpool_name ) {
         free(compound->super.taskpool_name);
@@ -119,6 +125,12 @@ parsec_compose( parsec_taskpool_t* start,
                              compound, compound->nb_taskpools, next );
     } else {
         compound = PARSEC_OBJ_NEW(parsec_compound_taskpool_t);
+        /* Install the termination detector here: if parsec_context_add_taskpool() does it, it
+         * also declares the taskpool ready before the startup hook had a chance to register
+         * the composed taskpools as pending actions, and the compound terminates (and runs
+         * its completion callback) before its first taskpool even started. */
+        parsec_termdet_open_module(&compound->super, "local");
+        compound->super.tdm.module->monitor_taskpool(&compound->super, parsec_taskpool_termination_detected);
 
         asprintf(&compound->super.taskpool_name, "Compound Taskpool %d", next->taskpool_id);
 
